@@ -27,6 +27,7 @@ class WaitFacts:
     read_p: str
     write_p: str
     cancel_check: Optional[FuncInfo]
+    wait_read_param: str = ""
 
 
 def msg_terms(st: PState, prefix: str) -> List[str]:
@@ -50,14 +51,12 @@ def analyse(P: Project) -> WaitFacts:
                 return "callparam:" + t + "(" + ",".join(subst_text(a, st) for a in call.args) + ")"
         if nm in ("anyio.fail_after", "anyio.move_on_after", "fail_after"):
             return None
-        if not is_benign_call(call) and nm not in ("getattr",) and not nm.endswith((".get", ".model_dump")):
-            args = ",".join(subst_text(a, st) for a in call.args)
-            return "call:" + nm + "(" + args + ")"
+        # (other calls leave no event: no rule reads them, and every distinct event multiplies the loop's state set)
         return None
 
     from ..summaries import predicate_inliner
 
-    an, out = run_paths(wait.node, event_of=wait_events, fallible=True, inliner=predicate_inliner(P, wait))
+    an, out = run_paths(wait.node, event_of=wait_events, fallible=True, inliner=predicate_inliner(P, wait), gc_dead_terms=True, forget_at_loop_back=True)
     an.parents = A.exception_parents(P)
 
     # send_message itself
@@ -92,7 +91,11 @@ def analyse(P: Project) -> WaitFacts:
 
     san, sout = run_paths(send.node, event_of=send_events, fallible=True)
     san.parents = A.exception_parents(P)
-    return WaitFacts(send, wait, loop, recv_assign, an, out, f"{msg_var}·", wait_call, binding, san, sout, rp, wp, cancel_check)
+    # the read stream as the wait function names it (its own parameter bound to send_message's read stream)
+    wrp = rp
+    if wait is not send:
+        wrp = next((k for k, v in binding.items() if isinstance(v, ast.Name) and v.id == rp), rp)
+    return WaitFacts(send, wait, loop, recv_assign, an, out, f"{msg_var}·", wait_call, binding, san, sout, rp, wp, cancel_check, wrp)
 
 
 def deadline_problems(W: "WaitFacts") -> List[str]:
